@@ -435,7 +435,7 @@ def c12(res, thorough):
                                                    "tied by trace conformance (void_mod, void_exp2, void_unaligned; the plain memory accesses are tied through the stored back/front values and the (size, id) the client reads back); "
                                                    "the byte-level record layout has in addition the sequential model Algo/Ring/Void and the byte-exact consumer oracle",
                                                    "capacities that are not a multiple of sizeof(size_t) are rounded up by the constructor after the fix: commit"], threads=2, ops=4)
-    lean_step(res, ["CdsVerif.Props.C12", "CdsVerif.Props.C12VoidRing"], thorough)
+    lean_step(res, ["CdsVerif.Props.C12", "CdsVerif.Props.C12VoidRing", "CdsVerif.Props.C12RingLin"], thorough)
     for v in ("void_mod", "void_exp2", "void_unaligned"):
         tie_A(res, "ringbuf", "voidring",
               [{"args": ["--mode", "mixed", "--threads", "2", "--ops", "4", "--variant", v], "cases": 12000 if thorough else 1500},
@@ -450,9 +450,12 @@ def c21(res, thorough):
                    "stale pointers and counted references; no-double-hand-out, conservation, quiescent completeness and the tag / reference lemmas are theorems over all schedules, any number of threads and nodes; "
                    "both machines are tied by trace conformance (every atomic operation on head, m_freeListRefs and m_freeListNext, values included, and every result)",
                    "CachedFreeList: no model; decided by the client oracles on explored schedules. Its thread-id hash is replaced by a per-case slot choice (replayability)",
-                   "get() returning nullptr while a deferred put is in flight is outside the property (FreeList is a relaxed bag)"],
+                   "history level (Props/C21FreeListsLin): TaggedFreeList is Herlihy-Wing linearizable to the bag for every run (C21_tagged_bag_linearizable, empty means empty at an instant inside the call); the reference-counted FreeList is NOT "
+                   "(C21_freelist_not_bag_linearizable: machine-checked complete run in which a get answers 'empty' while the only node is in the SHOULD_BE_ON_FREELIST hand-over of a put that has already returned) - it is linearizable to the weak bag "
+                   "in which 'empty' is always allowed (C21_freelist_bag_linearizable_partial: no invention, no duplication, no loss); the clauses C21 states (no double hand-out, quiescent completeness) are theorems for both; "
+                   "get() returning nullptr while a deferred put is in flight is outside the property's clauses (FreeList is a relaxed bag)"],
              partial=["CachedFreeList as a theorem: not proved"])
-    lean_step(res, ["CdsVerif.Props.C21", "CdsVerif.Props.C21FreeLists"], thorough)
+    lean_step(res, ["CdsVerif.Props.C21", "CdsVerif.Props.C21FreeLists", "CdsVerif.Props.C21FreeListsLin"], thorough)
     for v, m in (("freelist", "freelist"), ("tagged", "tagged")):
         tie_A(res, "freelist", m, [{"args": ["--mode", "mixed", "--threads", "4", "--ops", "5", "--variant", v], "cases": 10000 if thorough else 1200},
                                    {"args": ["--mode", "enum2" if thorough else "enum1", "--threads", "2", "--ops", "3", "--variant", v], "cases": 8 if thorough else 3}], pre=steps.freelist_pre)
